@@ -5,6 +5,7 @@ import (
 	"bytes"
 	"encoding/hex"
 	"fmt"
+	"strings"
 	"testing"
 
 	"github.com/jcmturner/gokrb5/v8/crypto"
@@ -372,6 +373,12 @@ func TestProp(t *testing.T) {
 		judge("enum", c, nil)
 		c.Variant = "otherkey-inplace"
 		judge("enum", c, nil)
+		// the right key with zero octets behind it is another octet string, hence another key (HMAC pads short keys with zeros)
+		for _, z := range []int{1, 2, 16, 48} {
+			c = base
+			c.Variant, c.A, c.Other = "otherkeylen", 2, base.Key+strings.Repeat("00", z)
+			judge("enum", c, nil)
+		}
 		for _, kl := range []int{0, 8, 16, 24, 32} {
 			for a := 0; a <= 2; a++ {
 				c = base
